@@ -56,7 +56,10 @@ type Object struct {
 	snapType types.Type
 	snapOff  int // offset and length of the encoded bytes inside this buffer
 	snapLen  int
-	frozen   bool
+	// top-level dictionary keys the encoded datagram leaves out although the snapshot's type always
+	// writes them (verifEncodeWithout): the decoder does not assign the fields of those keys
+	snapAbsent []string
+	frozen     bool
 }
 
 type Ptr struct {
